@@ -481,6 +481,62 @@ def run_chunk(arg):
     return R
 
 
+# ------------------------------------------------------------------ history / object-reuse probes
+
+def probe_specs(rs, count):
+    """(L, mutation, g, f, mode): g(A); mutate A in place; f(A) versus f(fresh copy of A).  All ordered pairs of the applicable
+    routines (g == f: single-routine probe); mode 'edit-returned': the array(s) returned by the first call are overwritten
+    in place by the caller before the second call."""
+    out = []
+    for k in range(count):
+        n = int(rs.randint(4, 9))
+        directed = bool(rs.rand() < .5)
+        binary = k % 3 != 0
+        A = rand_graph(rs, n, float(rs.choice([.3, .45, .6, .8])), directed, wmax=1 if binary else 2)
+        L = [[int(x) for x in r] for r in A]
+        edges = [(i, j) for i in range(n) for j in range(n) if L[i][j] and (directed or i < j)]
+        holes = [(i, j) for i in range(n) for j in range(n) if i != j and not L[i][j] and (directed or i < j)]
+        kind = ['lesion', 'lengthen', 'add'][k % 3] if not binary else ['lesion', 'add'][k % 2]
+        if kind in ('lesion', 'lengthen') and not edges:
+            kind = 'add'
+        if kind == 'add' and not holes:
+            kind = 'lesion'
+        (i, j) = (edges if kind != 'add' else holes)[int(rs.randint(len(edges if kind != 'add' else holes)))]
+        val = {'lesion': 0, 'lengthen': L[i][j] + 1 + int(rs.randint(2)), 'add': 1}[kind]
+        routines = ROUT_BIN if binary else ROUT_WEI
+        pairs = [(g, f) for g in routines for f in routines]
+        g, f = pairs[(k // 3) % len(pairs)]
+        out.append({'L': L, 'symmetric': not directed, 'mutation': [kind, i, j, val], 'first': g, 'second': f,
+                    'mode': 'edit-returned' if k % 7 == 6 else 'edit-argument'})
+    return out
+
+
+def run_probe(spec):
+    """-> None or the disagreement dict of common.reuse_probe"""
+    bct = import_bct()
+    g, f = getattr(bct, spec['first']), getattr(bct, spec['second'])
+    kind, i, j, val = spec['mutation']
+    state = {'calls': 0}
+
+    def seq(A):
+        state['calls'] += 1
+        if state['calls'] == 1:          # the earlier call that may leave something behind
+            r = g(A)
+            if spec['mode'] == 'edit-returned':
+                for x in (r if isinstance(r, tuple) else (r,)):
+                    x[...] = 7.0         # the caller scribbles over the returned arrays
+            return None
+        return f(A)
+
+    def mutate(args):
+        A = args[0]
+        A[i, j] = val
+        if spec['symmetric']:
+            A[j, i] = val
+
+    return reuse_probe(seq, [np.array(spec['L'], dtype=float)], mutate, t=10.0, tol=0.0)
+
+
 PROTO_BAD = ['spec n=3 L=0,1,0', 'spec n=2 L=0,1,1,0 den=0', 'betweenness_wei n=2 L=0,1,1,0 den=1/2', 'betweenness_wei n=2 L=0,1,-1,0', 'spec n=x L=0', 'between n=2 L=0,1,1,0', 'spec L=0', '',
              'edge_betweenness_bin n=2 L=0,1,a,0']
 
@@ -501,13 +557,21 @@ def main():
                        'binary routines are only given binary matrices; the weighted routines are given binary, {1,2,3}-length and dyadic rational-length matrices '
                        '(non-dyadic rationals are excluded: float sums of thirds need not tie exactly)',
                        'per routine: at least one normal return and at most max(2, 1%) watchdog timeouts, otherwise the run is reported as broken',
-                       'floats of the real routines are compared with exact rationals at 1e-9 relative to max(1,|x|)']
+                       'floats of the real routines are compared with exact rationals at 1e-9 relative to max(1,|x|)',
+                       'results are functions of the argument values: after any earlier call g(A) and an in-place edit of A, f(A) must equal f(copy of A) bit for bit']
     ok = ck.lean_gate(['BctVerif.Props.C08'], extra_modules=['BctVerif.Model.Between'])
     if ck.tier == 'thorough' and ok:
         ck.leanchecker(['BctVerif.Props.C08', 'BctVerif.Model.Between'])
     rs = ck.rs
     if ck.replay:
         rc = json.load(open(ck.replay))['case']
+        if 'probe' in rc:
+            d = run_probe(rc['probe'])
+            ck.case(sample=rc['probe'])
+            if d is not None:
+                ck.violation(rc['probe']['second'], 'result-depends-on-history', {'probe': rc['probe'], 'disagreement': d},
+                             {'routine': rc['probe']['second'], 'after': rc['probe']['first'], 'mode': rc['probe']['mode']})
+            ck.finish()
         Lr = tuple(tuple(int(x) for x in r) for r in rc['L'])
         cases = [('Q', Lr, int(rc['den']))] if int(rc.get('den', 1)) != 1 else [('M', Lr)]
         if rc.get('dtype'):
@@ -556,6 +620,18 @@ def main():
         if calls and not ck.replay and (okc == 0 or to > max(2, calls // 100)):
             ck.corr_break('bct.%s does not return normally' % f, {'calls': calls, 'ok': okc, 'timeouts': to, 'exceptions': ck.dist.get('exc:' + f, 0),
                                                                    'bound': 'at least one normal return and at most max(2, 1%) timeouts'})
+    # history / object reuse: g(A); edit A in place; f(A) must equal f(fresh copy) -- all ordered pairs of routines
+    if not ck.replay:
+        specs = probe_specs(rs, 160 if ck.tier == 'quick' else 1600)
+        nd = 0
+        for sp, d in zip(specs, pmap(run_probe, specs)):
+            ck.count('reuse-probes'); ck.count('probe:%s->%s' % (sp['first'][:4] + sp['first'][-4:], sp['second'][:4] + sp['second'][-4:]))
+            ck.case(nontrivial_key=digest(['probe', sp]))
+            if d is not None:
+                nd += 1
+                ck.violation(sp['second'], 'result-depends-on-history', {'probe': sp, 'disagreement': d},
+                             {'routine': sp['second'], 'after': sp['first'], 'mode': sp['mode']})
+        ck.count('reuse-probe-disagreements', nd)
     ck.count('correspondence_cases', corr); ck.count('correspondence_disagreements', bad)
     ck.count('spec_model_equals_bruteforce_exactly', spec_exact)
     ck.cov['traces_validated_against_impl'] = corr - bad
